@@ -6,7 +6,7 @@ require github.com/Syuparn/pangaea v0.0.0
 
 require (
 	github.com/dlclark/regexp2 v1.4.0 // indirect
-	github.com/labstack/echo/v4 v4.10.2 // indirect
+	github.com/labstack/echo/v4 v4.10.2
 	github.com/labstack/gommon v0.4.0 // indirect
 	github.com/lithammer/dedent v1.1.0 // indirect
 	github.com/macrat/simplexer v0.0.0-20180110131648-bce8e0661570 // indirect
